@@ -621,6 +621,7 @@ type foCfg struct {
 	updateTTL       time.Duration
 	logger          int // 0 nil, 1 error-only, 2 full
 	stats           bool
+	observeMut      bool
 	backendTTL      time.Duration
 }
 
@@ -635,8 +636,8 @@ var variantKinds = []string{kindSharded, kindSync, kindShardedOf, kindSharded, k
 const nVariants = 5
 
 func (f foCfg) String() string {
-	return fmt.Sprintf("%s SyncUpdate=%v SyncRead=%v FailHard=%v MaxStaleness=%v FailedUpdateTTL=%v UpdateTTL=%v logger=%d stats=%v backendTTL=%v",
-		variantNames[f.variant], f.syncUpdate, f.syncRead, f.failHard, f.maxStaleness, f.failedUpdateTTL, f.updateTTL, f.logger, f.stats, f.backendTTL)
+	return fmt.Sprintf("%s SyncUpdate=%v SyncRead=%v FailHard=%v MaxStaleness=%v FailedUpdateTTL=%v UpdateTTL=%v logger=%d stats=%v ObserveMutability=%v backendTTL=%v",
+		variantNames[f.variant], f.syncUpdate, f.syncRead, f.failHard, f.maxStaleness, f.failedUpdateTTL, f.updateTTL, f.logger, f.stats, f.observeMut, f.backendTTL)
 }
 
 func (f foCfg) effUpdateTTL() time.Duration {
@@ -717,7 +718,7 @@ func (w *world) attach() {
 		f := cache.NewFailoverOf[any](cache.FailoverConfigOf[any]{
 			Name: w.name, Backend: wrap,
 			FailedUpdateTTL: cfg.failedUpdateTTL, UpdateTTL: cfg.updateTTL, SyncUpdate: cfg.syncUpdate, SyncRead: cfg.syncRead,
-			MaxStaleness: cfg.maxStaleness, FailHard: cfg.failHard, Logger: logger, Stats: stats,
+			MaxStaleness: cfg.maxStaleness, FailHard: cfg.failHard, Logger: logger, Stats: stats, ObserveMutability: cfg.observeMut,
 		}.Use)
 		w.fe = foOfAny{f}
 	} else if cfg.variant == 2 {
@@ -725,7 +726,7 @@ func (w *world) attach() {
 		f := cache.NewFailoverOf[string](cache.FailoverConfigOf[string]{
 			Name: w.name, Backend: &beWrapOf{w: wrap, real: real},
 			FailedUpdateTTL: cfg.failedUpdateTTL, UpdateTTL: cfg.updateTTL, SyncUpdate: cfg.syncUpdate, SyncRead: cfg.syncRead,
-			MaxStaleness: cfg.maxStaleness, FailHard: cfg.failHard, Logger: logger, Stats: stats,
+			MaxStaleness: cfg.maxStaleness, FailHard: cfg.failHard, Logger: logger, Stats: stats, ObserveMutability: cfg.observeMut,
 		}.Use)
 		w.fe = foOf{f}
 	} else {
@@ -733,7 +734,7 @@ func (w *world) attach() {
 		f := cache.NewFailover(cache.FailoverConfig{
 			Name: w.name, Backend: wrap,
 			FailedUpdateTTL: cfg.failedUpdateTTL, UpdateTTL: cfg.updateTTL, SyncUpdate: cfg.syncUpdate, SyncRead: cfg.syncRead,
-			MaxStaleness: cfg.maxStaleness, FailHard: cfg.failHard, Logger: logger, Stats: stats,
+			MaxStaleness: cfg.maxStaleness, FailHard: cfg.failHard, Logger: logger, Stats: stats, ObserveMutability: cfg.observeMut,
 		}.Use)
 		w.fe = foPlain{f}
 	}
@@ -884,7 +885,25 @@ func (w *world) startGet(g *getSpec) {
 		w.s.mu.Unlock()
 		close(started)
 
-		v, err := w.fe.Get(ctx, g.buf, w.builderFor(g, t))
+		var (
+			v   interface{}
+			err error
+		)
+
+		func() {
+			// a panic inside Get is a violation (Get must return), not a reason to lose the case
+			defer func() {
+				if r := recover(); r != nil {
+					err = fmt.Errorf("PANIC in Get: %v", r)
+
+					w.log.mu.Lock()
+					w.log.problems = append(w.log.problems, fmt.Sprintf("get-panic: %s Get(%s) panicked: %v", t.name, keyName(g.key), r))
+					w.log.mu.Unlock()
+				}
+			}()
+
+			v, err = w.fe.Get(ctx, g.buf, w.builderFor(g, t))
+		}()
 
 		w.log.mu.Lock()
 		rec.val, rec.err, rec.done = v, err, true
